@@ -42,6 +42,8 @@ MembersMixed == {<<[kind |-> a, tag |-> UnivOf[b], opt |-> TRUE, present |-> pr,
                       [kind |-> a, tag |-> UnivOf[b], opt |-> TRUE, present |-> pr, extra |-> ""]>> :
                    a \in {"int", "octets"}, b \in DOMAIN UnivOf \cap Kinds1, pr \in BOOLEAN}
 
+OidArcs == IF FuzzFirst = {} THEN {}
+           ELSE {<<1, 2>>, <<0, 0>>, <<2, 999, 3>>, <<1, 2, 840, 113549>>, <<2, 100, 16383, 16384>>, <<1, 3, 6, 1, 4, 1, 2097151>>}
 Cases ==
      {[mode |-> "prim", type |-> "int", val |-> x] : x \in IntVals}
   \cup {[mode |-> "prim", type |-> "enum", val |-> x] : x \in IntVals}
@@ -52,6 +54,8 @@ Cases ==
   \cup {[mode |-> "prim", type |-> t, n |-> 0] : t \in {"null", "oid", "uint8", "int32"}}
   \cup {[mode |-> "schema", leaf |-> lf, present |-> s, seed |-> sd] : lf \in Leafs, s \in Strategies, sd \in Seeds}
   \cup {[mode |-> "fuzz", only |-> a] : a \in FuzzFirst}
+  \* encodings of values the codec cannot produce itself (OBJECT IDENTIFIER), written by the reference: decoder input
+  \cup {[mode |-> "foreign", kind |-> "oid", bytes |-> TLV(0, FALSE, 6, OidContent(a))] : a \in OidArcs}
   \cup {[mode |-> "shape", top |-> tp, members |-> m, leaf |-> lf, seed |-> sd] :
           tp \in {"struct", "choice"}, m \in Members1 \cup Members2, lf \in Leafs, sd \in {CHOOSE z \in Seeds : TRUE}}
   \cup {[mode |-> "shape", top |-> "struct", members |-> m, leaf |-> lf, seed |-> sd] :
